@@ -682,7 +682,10 @@ package redis
 
 //@ func (*upstream).getClient
 //@   prop C07 C02
+//@   requires @pending-calls-wellformed forall k string :: smhas[u.createClientCalls][k] ==> typeis(smval[u.createClientCalls][k], "*createClientCall") && ifaceptr(smval[u.createClientCalls][k], "*createClientCall") != nil && ifaceptr(smval[u.createClientCalls][k], "*createClientCall").done != nil
+//@   modifies all, smhas, smval
 //@   ensures @client-or-error result1 == nil ==> result0 != nil
+//@   ensures @no-finished-connect-attempt-stays-cached !old(smhas[u.createClientCalls][addr]) ==> !smhas[u.createClientCalls][addr]
 //@   assume @ret result1 == nil ==> result0 != nil
 
 //@ func (*client).Send
